@@ -222,3 +222,18 @@ func HTMLUnescape(s string) string {
 	}
 	return string(out)
 }
+
+// ---- fmt: opaque formatting ----
+//
+// Formatting is not the subject of any property: Sprintf and friends return
+// the format string (arguments are not rendered), Errorf an error carrying it.
+// A property must not depend on message text.
+
+type FmtError struct{ Msg string }
+
+func (e *FmtError) Error() string { return e.Msg }
+
+func Sprintf(format string, a ...any) string  { return format }
+func Errorf(format string, a ...any) error    { return &FmtError{format} }
+func Sprint(a ...any) string                  { return "<fmt.Sprint>" }
+func Sprintln(a ...any) string                { return "<fmt.Sprintln>\n" }
